@@ -22,8 +22,7 @@ __attribute__((always_inline)) inline void chain(const mk_t<K,size_t,RA>& a, con
     if constexpr (I == RMIN<RA,RB>) {
         // every aligned pair is compatible: NumPy succeeds -> must have a value, with the per-axis maximum
         auto r = ix::broadcast_shape(a,b);
-        OBLIGE("C06.bshape.complete", static_cast<bool>(r), kid<K>, RA, RB);
-        OBLIGE("C15.bshape.value_when_compatible", static_cast<bool>(r), kid<K>, RA, RB);
+        OBLIGE("C06.bshape.complete|C15.bshape.value_when_compatible", static_cast<bool>(r), kid<K>, RA, RB);
         if (r) {
             OBLIGE("C06.bshape.len", (size_t)nm::len(*r)==R, kid<K>, RA, RB);
             for_<R>([&](auto J){ // J counts from the back
@@ -40,8 +39,7 @@ __attribute__((always_inline)) inline void chain(const mk_t<K,size_t,RA>& a, con
         if (!compat_axis<I>(a,b)) {
             // first incompatible pair at aligned axis I: NumPy raises -> must be Nothing
             auto r = ix::broadcast_shape(a,b);
-            OBLIGE("C06.bshape.sound", !static_cast<bool>(r), kid<K>, RA, RB, I);
-            OBLIGE("C15.bshape.nothing_when_incompatible", !static_cast<bool>(r), kid<K>, RA, RB, I);
+            OBLIGE("C06.bshape.sound|C15.bshape.nothing_when_incompatible", !static_cast<bool>(r), kid<K>, RA, RB, I);
         } else {
             chain<K,RA,RB,I+1>(a,b);
         }
